@@ -184,14 +184,21 @@ impl PrettyParseError {
     /// The `source_file` parameter is used to print the error with the same format `rustc` does.
     pub fn from_parse_error(err: &ParseError, text: &str, source_file: Option<&str>) -> Self {
         let target_line = IndexedStringLineIterator::new(text)
-            .find(|l| l.start_offset <= err.position && l.end_offset >= err.position)
-            .unwrap();
+            .find(|l| l.start_offset <= err.position && l.end_offset > err.position)
+            // The position is at the very end of the text, after the last newline (or the text is empty)
+            .unwrap_or_else(|| IndexedStringLine {
+                s: "",
+                lineno: text.bytes().filter(|b| *b == b'\n').count(),
+                start_offset: text.len(),
+                end_offset: text.len() + 1,
+            });
         let character_position = target_line
             .s
             .char_indices()
             .map(|(cp, _c)| cp)
             .position(|cp| cp == err.position - target_line.start_offset)
-            .unwrap_or(0);
+            // The position is at the end of the line
+            .unwrap_or_else(|| target_line.s.chars().count());
         let position = if let Some(f) = source_file {
             format!(
                 "{}:{:?}:{:?}",
